@@ -3,31 +3,61 @@
 #ifndef TETL_CMATH_REMAINDER_HPP
 #define TETL_CMATH_REMAINDER_HPP
 
+#include <etl/_config/all.hpp>
+
 #include <etl/_3rd_party/gcem/gcem.hpp>
+#include <etl/_concepts/same_as.hpp>
+#include <etl/_type_traits/is_constant_evaluated.hpp>
 
 namespace etl {
 
-/// Computes the remainder of the floating point division operation x/y.
-/// \details https://en.cppreference.com/w/cpp/numeric/math/remainder
-/// \ingroup cmath
-[[nodiscard]] constexpr auto remainder(float x, float y) noexcept -> float { return etl::detail::gcem::fmod(x, y); }
+namespace detail {
+
+inline constexpr struct remainder {
+    template <typename Float>
+    [[nodiscard]] constexpr auto operator()(Float x, Float y) const noexcept -> Float
+    {
+#if not defined(__AVR__)
+        if (not is_constant_evaluated()) {
+    #if __has_builtin(__builtin_remainderf)
+            if constexpr (etl::same_as<Float, float>) {
+                return __builtin_remainderf(x, y);
+            }
+    #endif
+    #if __has_builtin(__builtin_remainder)
+            if constexpr (etl::same_as<Float, double>) {
+                return __builtin_remainder(x, y);
+            }
+    #endif
+        }
+#endif
+        return etl::detail::gcem::fmod(x, y);
+    }
+} remainder;
+
+} // namespace detail
 
 /// Computes the remainder of the floating point division operation x/y.
 /// \details https://en.cppreference.com/w/cpp/numeric/math/remainder
 /// \ingroup cmath
-[[nodiscard]] constexpr auto remainderf(float x, float y) noexcept -> float { return etl::detail::gcem::fmod(x, y); }
+[[nodiscard]] constexpr auto remainder(float x, float y) noexcept -> float { return etl::detail::remainder(x, y); }
 
 /// Computes the remainder of the floating point division operation x/y.
 /// \details https://en.cppreference.com/w/cpp/numeric/math/remainder
 /// \ingroup cmath
-[[nodiscard]] constexpr auto remainder(double x, double y) noexcept -> double { return etl::detail::gcem::fmod(x, y); }
+[[nodiscard]] constexpr auto remainderf(float x, float y) noexcept -> float { return etl::detail::remainder(x, y); }
+
+/// Computes the remainder of the floating point division operation x/y.
+/// \details https://en.cppreference.com/w/cpp/numeric/math/remainder
+/// \ingroup cmath
+[[nodiscard]] constexpr auto remainder(double x, double y) noexcept -> double { return etl::detail::remainder(x, y); }
 
 /// Computes the remainder of the floating point division operation x/y.
 /// \details https://en.cppreference.com/w/cpp/numeric/math/remainder
 /// \ingroup cmath
 [[nodiscard]] constexpr auto remainder(long double x, long double y) noexcept -> long double
 {
-    return etl::detail::gcem::fmod(x, y);
+    return etl::detail::remainder(x, y);
 }
 
 /// Computes the remainder of the floating point division operation x/y.
@@ -35,7 +65,7 @@ namespace etl {
 /// \ingroup cmath
 [[nodiscard]] constexpr auto remainderl(long double x, long double y) noexcept -> long double
 {
-    return etl::detail::gcem::fmod(x, y);
+    return etl::detail::remainder(x, y);
 }
 
 } // namespace etl
